@@ -113,8 +113,27 @@ def build(case):
         ix0 = int(np.min(ds.dts.ufunc_per_section(sections=f.sections, x_indices=True, calc_per="all")))
         # (rebuilt without that term instead of subtracting it: the subtraction loses 1e-12 relative and shows at the 2^-46 comparison)
         sde[ix0] = (g2[ix0] * kw["fix_gamma"][1]) if "fix_gamma" in kw else 0.0
+    from vlib.props.c01 import ms_lit
+    dm = lambda a: dmat(a) if len(a) else "[]"
+    if f.matching:
+        from dtscalibration.calibrate_utils import match_sections
+        mi = np.asarray(match_sections(ds, f.matching))
+        ixs = np.asarray(ds.dts.ufunc_per_section(sections=f.sections, x_indices=True, calc_per="all"))
+        h, tl = mi[:, 0], mi[:, 1]
+        vaz = np.zeros(nx)
+        if "fix_alpha" in kw:   # EQ1/EQ2 rows carry alpha_h and alpha_t, EQ3 rows alpha_i; the first reference location has no alpha
+            vaz = np.asarray(kw["fix_alpha"][1], float).copy()
+            vaz[int(np.min(ixs))] = 0.0
+        W1p = 1 / (ivF[h] + ivF[tl] + vaz[h][:, None] + vaz[tl][:, None])
+        W2p = 1 / (ivB[h] + ivB[tl] + vaz[h][:, None] + vaz[tl][:, None])
+        notcal = np.array([i for i in np.unique(np.concatenate((h, tl))) if i not in ixs], dtype=int)
+        W3p = 1 / ((ivF[notcal] + ivB[notcal]) / 4 + vaz[notcal][:, None]) if len(notcal) else np.zeros((0, nt))
+        mlit = f"{ms_lit(f)} {dm(W1p)} {dm(W2p)} {dm(W3p)}"
+    else:
+        mlit = "[] [] [] []"
+    tail_de = f"{fx} {mlit} {dlist(rec['y'])} {dlist(rec['w'])} {dlist(out.p_val.values)} {dmat(out.p_cov.values)} ({E_CERT}) ({E_TOL})"
     return (f"de_fix_check {common} {dmat(st)} {dmat(ast)} {dmat(va['st_var'])} {dmat(va['ast_var'])} {dmat(rst)} {dmat(rast)} {dmat(va['rst_var'])} {dmat(va['rast_var'])} "
-            f"{dmat(1 / (ivF + sde))} {dmat(1 / (ivB + sde))} {dmat(np.log(st / ast))} {dmat(np.log(rst / rast))} {tail}")
+            f"{dmat(1 / (ivF + sde))} {dmat(1 / (ivB + sde))} {dmat(np.log(st / ast))} {dmat(np.log(rst / rast))} {tail_de}")
 
 
 def gen_params(ctx):
@@ -129,6 +148,9 @@ def gen_params(ctx):
         force = {"nmatch": 0, "noise": float(rng.choice([0.002, 0.01, 0.05])), "nx": int(rng.integers(9, 15)), "nta": int(rng.choice([0, 0, 1]))}
         if force["nta"]:
             force["nx"] = int(rng.integers(13, 17))
+        if double and k % 2 == 1:   # double ended: matching sections with every fix combination
+            force["nmatch"] = int(rng.choice([1, 2]))
+            force["nx"] = int(rng.integers(20, 28))
         if not double and "alpha" not in fix.split("+") and k % 2 == 1:   # matching sections (the API refuses them together with fix_alpha)
             force["nmatch"] = int(rng.choice([1, 2]))
             force["nx"] = int(rng.integers(20, 28))
@@ -179,7 +201,7 @@ def run(ctx):
                          "fix_alpha+fix_gamma} x supplied variance in {0, tiny, comparable to, 100x} the measurement variance (translated through the coefficient). The arguments of "
                          "wls_sparse are captured at run time and compared with the reduced rows of the model; the result is judged by exact residual tests on the reduced problem")
     ctx.trusted += ["harness vlib/props/c07.py (run-time wrapper around calibrate_utils.wls_sparse inside the harness process)", "LSQR / lstsq judged, not modelled"]
-    ctx.assumptions += ["matching sections in the single-ended C07 conformance only (the reduction theorem covers both; the double-ended certified-weight harness does not)", "fixed values supplied at the generator's truth"]
+    ctx.assumptions += ["single ended: matching sections only without fix_alpha (the API refuses the combination)", "fixed values supplied at the generator's truth"]
     run_params(ctx, gen_params(ctx), "fix")
 
 
